@@ -33,3 +33,32 @@ contract(
     ensures=[tag("C20", "range", "0 <= result and result <= m")],
     assumptions=["termination of the cycle walk (x is a permutation: E4) is not proved"],
 )
+
+
+# ---- block contract: the position-distance matrix built in order1d.Instance.__init__ is |i - j|
+from pyvc.spec import A2, PYINT  # noqa: E402
+
+contract(
+    "moptipyapps.order1d.instance:Instance.__init__#distances",
+    props="C20",
+    block=("assign dist_matrix #0", "for #0"),
+    params={"n": PYINT},
+    i64=False,
+    requires=["n >= 1 and n <= 10**15"],      # n = number of objects (rows of a matrix held in memory)
+    loops={
+        "0": Loop(inv=[
+            tag("C20", "rows-done", "forall(a, 0, i, forall(b, a + 1, n, dist_matrix[a, b] == b - a and dist_matrix[b, a] == b - a))"),
+            tag("C20", "rest-zero", "forall(a, 0, n, forall(b, 0, n, implies(not (a < i and b > a) and not (b < i and a > b), dist_matrix[a, b] == 0)))"),
+            tag("C20", "shape", "shape(dist_matrix, 0) == n and shape(dist_matrix, 1) == n"),
+        ]),
+        "0.0": Loop(inv=[
+            tag("C20", "rows-done", "forall(a, 0, i, forall(b, a + 1, n, dist_matrix[a, b] == b - a and dist_matrix[b, a] == b - a))"),
+            tag("C20", "row-prefix", "forall(b, i + 1, j, dist_matrix[i, b] == b - i and dist_matrix[b, i] == b - i) and 0 <= i and i < n"),
+            tag("C20", "rest-zero", "forall(a, 0, n, forall(b, 0, n, implies(not ((a < i and b > a) or (a == i and i < b and b < j))"
+                " and not ((b < i and a > b) or (b == i and i < a and a < j)), dist_matrix[a, b] == 0)))"),
+            tag("C20", "shape", "shape(dist_matrix, 0) == n and shape(dist_matrix, 1) == n"),
+        ]),
+    },
+    ensures=[tag("C20", "distance-is-absolute-position-difference",
+                 "forall(a, 0, n, forall(b, 0, n, dist_matrix[a, b] == (b - a if b >= a else a - b)))")],
+)
